@@ -1357,6 +1357,25 @@ class GN(G):
                 out.append(("print", ("call", ("prop", a, self.pick(["floor", "ceil", "round", "str"])), [])))
             else:
                 out.append(("print", ("tern", ("bin", "==", a, b), ("str", "eq"), ("str", "ne"))))
+        if self.chance(30):
+            # a map large enough to have several groups of buckets: keys that are equal must also hash alike, which a
+            # handful of entries cannot tell (a small table probes one group whatever the upper hash bits say)
+            size = self.pick([40, 130, 160, 300, 700])
+            zero = self.pick([("num", 0.0), ("un", "-", ("num", 0.0)), ("bin", "*", ("num", 0.0), ("un", "-", ("num", 1.0)))])
+            other = self.pick([("un", "-", ("num", 0.0)), ("num", 0.0), ("bin", "-", ("num", 0.0), ("num", 0.0))])
+            mb = self.fresh("big")
+            out.append(("let", mb, ("map", [])))
+            out.append(("expr", ("assign", ("index", ("var", mb), zero), ("str", "zero"))))
+            out.append(("for", "i", ("call", ("prop", ("num", float(size)), "times"), []),
+                        [("if", ("bin", ">", ("var", "i"), ("num", 0.0)),
+                          [("expr", ("assign", ("index", ("var", mb), ("var", "i")), ("var", "i")))], None)]))
+            out.append(("print", ("call", ("prop", ("var", mb), "has"), [other])))
+            out.append(("print", ("call", ("prop", ("var", mb), "get"), [other])))
+            out.append(("expr", ("assign", ("index", ("var", mb), other), ("str", "again"))))
+            out.append(("print", ("call", ("prop", ("var", mb), "len"), [])))
+            out.append(("print", ("index", ("var", mb), zero)))
+            out.append(("try", [("expr", ("call", ("prop", ("var", mb), "remove"), [other])), ("print", ("call", ("prop", ("var", mb), "has"), [zero]))],
+                        [("e", None, [("print", ("call", ("prop", ("call", ("prop", ("var", "e"), "cls"), []), "name"), []))])]))
         return out
 
 
